@@ -61,6 +61,18 @@ def build(code, ident, auth, attrs, secret=None, rqauth=None, sign=True, msgauth
     return bytes(pkt)
 
 
+def parse_attrs(pkt):
+    """(type, value) list of a well-formed packet (stops at the first attribute that does not fit)"""
+    out, i = [], 20
+    while i + 2 <= len(pkt):
+        t, l = pkt[i], pkt[i + 1]
+        if l < 2 or i + l > len(pkt):
+            break
+        out.append((t, bytes(pkt[i + 2:i + l])))
+        i += l
+    return out
+
+
 def pwd_encrypt(plain, secret, auth, salt=b""):
     plain = bytes(plain)
     if len(plain) % 16:
